@@ -49,8 +49,10 @@ pub fn parse_objective(objective: Pair<Rule>) -> Result<PreObjective, Compilatio
                     match obj_type {
                         Ok(OptimizationType::Satisfy) => Ok(PreObjective::new(
                             obj_type.unwrap(),
+                            // nothing to optimize: the value of a solved model is 0,
+                            // as for a model built with `satisfy()`
                             PreExp::Primitive(Spanned::new(
-                                Primitive::Boolean(true),
+                                Primitive::Number(0.0),
                                 InputSpan::from_pair(&objective_type),
                             )),
                         )),
